@@ -27,22 +27,26 @@ open GoblVerif.GoStr
 def errRange : Str :=
   ['v', 'a', 'l', 'u', 'e', ' ', 'o', 'u', 't', ' ', 'o', 'f', ' ', 'r', 'a', 'n', 'g', 'e']
 
+/-- the text starts with a minus sign -/
+def isNeg : Str → Bool
+  | '-' :: _ => true
+  | _ => false
+
+/-- the text after an optional sign `+` or `-` -/
+def afterSign : Str → Str
+  | '-' :: t => t
+  | '+' :: t => t
+  | s => s
+
 /-- `strconv.ParseInt(s, 10, 64)`: an optional sign `+` or `-`, then one or
     more ASCII digits (no underscores in base 10); anything else is a syntax
     error with value 0.  A value that does not fit a signed 64-bit integer is a
     range error and the result is the bound of its sign. -/
 def parseInt (s : Str) : Int × Option Str :=
-  let neg := match s with
-    | '-' :: _ => true
-    | _ => false
-  let body := match s with
-    | '-' :: t => t
-    | '+' :: t => t
-    | _ => s
-  match atoiU body with
+  match atoiU (afterSign s) with
   | none => (0, some errSyntax)
   | some n =>
-    if neg then
+    if isNeg s then
       if n > 9223372036854775808 then (-9223372036854775808, some errRange) else (-(n : Int), none)
     else
       if n ≥ 9223372036854775808 then (9223372036854775807, some errRange) else ((n : Int), none)
